@@ -68,6 +68,14 @@ CHECKS = {
    "every program (seeded random typed expressions, generated bundles with control flow/calls/params/lets/msg/globals/$ij/autoescape modes/directive chains, and systematic families for functions, directives, loop helpers, null-safe references and lets in untaken branches) is translated by the JS generator, the translation is executed by node, the Go renderer renders the same program, and TLC judges each recorded [program, go, js] line against the reference interpreter (C04Trace) with the common-subset predicate SoyCommon.InCommonSubset deciding which lines are judged and CanonRefs comparing reference spellings; SoyJsScope.tla model-checks JS static naming against SoyExec's dynamic scoping (4 deviations replayed)",
    "cases outside the common subset or Unspec in the reference are not judged; node v20 executes the generated code; documented Go/JS differences (round of negative halves, escapeUri/escapeJsString/json encodings, quote-reference reuse) are outside the subset",
    "translation validation: generated JavaScript executed and compared three-way (JS = Go = TLA+ reference) with the subset decided by the spec", "§5 C04"),
+ "C10": ("model_checking",
+   "SoyMsg.tla: message body -> parts, base-name derivation (UPPER_UNDERSCORE with the official word boundaries, tags, globals, XXX/NUM), the official placeholder-naming algorithm written over sequences, the placeholder string and MsgKey (what the id may depend on) with the 64-bit fingerprint uninterpreted; TLC checks over all bodies of <= 4 parts from a collision-prone pool that names are a function of the part sequence, equal expressions share a name, distinct ones never do, MsgKey is invariant under description/context and sensitive to text/structure/meaning, and that the map-order deviation makes names multi-valued; every exported body is compiled by the real code 50x in-process and in 3 fresh processes, alone and embedded, and names, placeholder string, id stability and id equality iff MsgKey equality are compared; ids are pinned by the repository's golden vectors and an independent transcription of the fingerprint routine",
+   "the fingerprint's bit arithmetic is outside the TLA+ model (trusted: golden vectors + independent Go transcription)",
+   "TLA+ naming/identity model checked by TLC + exported bodies compiled repeatedly across processes by the real code", "§5 C10"),
+ "C11": ("model_checking",
+   "SoyPO.tla: extraction (msgid, msgid_plural, id=/var= references), validation, identity/reversing/partial translation, loading, plural rules for 1/2/3-form locales and render-time substitution; TLC checks the round-trip laws on every PO-representable message of the pool and that 4 deviations are caught; on the real code the xgettext-soy binary (built from the tree) extracts from generated files, the PO output is parsed, translated, loaded with pomsg.Load and rendered by the Go renderer and - through soyjs Options.Messages - by generated JavaScript in node, all compared with the spec",
+   "robfig/gettext/po (a dependency) parses the PO files; node executes the generated code",
+   "TLA+ PO round-trip model checked by TLC + real extractor/loader/renderers (Go and generated JS) replaying exported messages", "§5 C11"),
 }
 
 NOT_YET = {
